@@ -114,6 +114,7 @@ PROPS = {
                       "getCachedClient/generateClient breaker wiring.",
     },
     "C03": {
+        "kcheck": True,
         "onep": True,
         "rule": "exhaustive response permutations for k<=4 (thorough k<=5) calls mixing Go/Call/SendRaw, with pushes carrying a pending "
                 "call's seq, unknown seqs and duplicates inserted, plus 350 (thorough 8000) random schedules over registration / encode / "
@@ -136,6 +137,7 @@ PROPS = {
                       "(send, call, SendRaw, input, Close). Weak-memory behaviour is outside the model.",
     },
     "C05": {
+        "kcheck": True,
         "onep": True,
         "generated": ["gopending2v"],
         "rule": "350 (thorough 8000) random schedules: 1-5 calls (Go, blocking Call, SendRaw, one-way), each stepping through "
@@ -163,6 +165,7 @@ PROPS = {
                       "call, input, Close; refuses what it does not know). Modelled, not verified: client/client.go.",
     },
     "C06": {
+        "kcheck": True,
         "onep": True,
         "generated": ["gopending2v"],
         "rule": "(the scripted transport honours write deadlines; Go calls with an already expired context deadline and cancellation before registration are among the aggressors) exhaustive victim/aggressor enumeration (victim first or later x aggressor in {cancelled before registration, after "
@@ -257,6 +260,7 @@ PROPS = {
                       "MultipleServersDiscovery.Update / notifyWatcher, xClient.watch, filterByStateAndGroup.",
     },
     "C04": {
+        "kcheck": True,
         "onep": True,
         "rule": "260 (thorough 6000) random request sequences: 1-6 requests on 1-3 connections, arbitrary and repeated seqs, one-way / "
                 "two-way / heartbeat, the three dispatch styles (reflected method, registered function, router handler) plus pooled "
@@ -285,6 +289,7 @@ PROPS = {
                       "Context.Write/WriteError, sendResponse.",
     },
     "C07": {
+        "kcheck": True,
         "onep": True,
         "rule": "260 (thorough 6000) random request sequences biased to failures (60%): handler error texts {empty, short, multi-line, "
                 "non-ASCII, 64 KiB}, panics, unknown service / method / codec, undecodable arguments, at every position of sequences "
@@ -304,6 +309,7 @@ PROPS = {
                       "client.input's error branch.",
     },
     "C20": {
+        "kcheck": True,
         "onep": True,
         "generated": ["gopools2v"],
         "rule": "size classes: findPool / findPutPool compared with the exact-arithmetic model for EVERY size 0..max+2 of 40 "
